@@ -381,6 +381,12 @@ impl World {
     /// `never_opened` and left to the caller to report.  No byte has crossed the tunnel yet (the caller warms it
     /// up through whichever remote it has).  `Err` = infrastructure (no free port, the client ended at start-up).
     pub async fn start_multi(plan: &[PlanRemote]) -> Result<Arc<World>, String> {
+        Self::start_multi_to(plan, None).await
+    }
+
+    /// `start_multi` whose fixed TCP / Unix socket remotes forward to `fixed_target` (a 127.0.0.1 listener of the
+    /// caller: the "many connections open at once" family brings a target of its own) instead of the world's slots.
+    pub async fn start_multi_to(plan: &[PlanRemote], fixed_target: Option<SocketAddr>) -> Result<Arc<World>, String> {
         if plan.is_empty() || plan.len() > SLOTS {
             return Err(format!("a multi-remote world has 1 .. {SLOTS} remotes"));
         }
@@ -414,12 +420,12 @@ impl World {
                 PlanKind::Tcp => {
                     tcp_ports[i] = port;
                     tcp_hosts[i] = r.reach;
-                    remotes.push(format!("{host}:{port}:127.0.0.1:{}", base.slots[i].v4.port()));
+                    remotes.push(format!("{host}:{port}:127.0.0.1:{}", fixed_target.map_or(base.slots[i].v4.port(), |a| a.port())));
                     listens.push(Listens::Tcp(r.reach, port));
                 }
                 PlanKind::Unix => {
                     uds_paths[i] = base.dir.join(format!("s{i}.sock"));
-                    remotes.push(format!("[unix:{}]:127.0.0.1:{}", uds_paths[i].display(), base.slots[i].v4.port()));
+                    remotes.push(format!("[unix:{}]:127.0.0.1:{}", uds_paths[i].display(), fixed_target.map_or(base.slots[i].v4.port(), |a| a.port())));
                     listens.push(Listens::Unix(uds_paths[i].clone()));
                 }
                 PlanKind::Socks => {
